@@ -333,7 +333,19 @@ impl<M: wire::Decode> wire::Decode for Frame<M> {
             Ok(StreamKind::Gossip) => {
                 let data = varint::payload::decode(reader)?;
                 let mut cursor = io::Cursor::new(data);
-                let msg = M::decode(&mut cursor)?;
+                // Nb. The payload is complete at this point. Running out of bytes while
+                // decoding the message means the message is malformed, not that more data
+                // is needed: don't report it as an end-of-file.
+                let msg = M::decode(&mut cursor).map_err(|err| {
+                    if err.is_eof() {
+                        wire::Error::from(io::Error::new(
+                            io::ErrorKind::InvalidData,
+                            "message is truncated",
+                        ))
+                    } else {
+                        err
+                    }
+                })?;
                 let frame = Frame {
                     version,
                     stream,
